@@ -255,3 +255,9 @@ CASES.append(cg_case((3, 2, 1), 0, 0, groups=2))
 CASES.append(cg_case((2, 3, 1), 1, 1, groups=2))
 CASES.append(Case("identity-map/real-engine", identity_case, functions=["simulate_script(cgmap=identity)", "coarsegrain_system",
                   "uncoarsegrain_trajectory"], sym=False, bounded="3 grids, deterministic engine, 50 steps, relative tolerance 1e-9"))
+# "simulating with the identity map reproduces the plain simulation" in every units system: the coarse-grained graph reaches
+# the native engine through the graph seam (volumes, edge surfaces and distances converted to the script's units): C04's
+# graph marshalling cases are part of this check
+from props import C04 as _C04
+CASES.append(_C04.marshal_case("graph", False))
+CASES.append(_C04.marshal_case("graph", True))
